@@ -459,10 +459,12 @@ func bearerCtx(values ...string) context.Context {
 }
 
 // evalOIDC runs one (configuration, token) case; tok may carry the already assembled token for (c.Cfg.Server, c.Tok).
-func (e *env) evalOIDC(r *core.Report, c *oidcCase, tok string) error {
-	a, err := e.auth(c.Cfg)
-	if err != nil {
-		return err
+func (e *env) evalOIDC(r *core.Report, c *oidcCase, tok string, a *oidc.RemoteOidcAuthenticator) error {
+	if a == nil {
+		var err error
+		if a, err = e.auth(c.Cfg); err != nil {
+			return err
+		}
 	}
 	is := e.issuers[c.Cfg.Server]
 	if tok == "" {
@@ -671,8 +673,9 @@ func runOIDC(r *core.Report, thorough bool) error {
 	defer e.close()
 	d := oidcDims(thorough)
 	cfgs := oidcConfigs(thorough)
-	for _, c := range cfgs { // construct every authenticator up front (real discovery + JWKS fetch)
-		if _, err := e.auth(c); err != nil {
+	auths := make([]*oidc.RemoteOidcAuthenticator, len(cfgs))
+	for i, c := range cfgs { // construct every authenticator up front (real discovery + JWKS fetch)
+		if auths[i], err = e.auth(c); err != nil {
 			return err
 		}
 	}
@@ -697,7 +700,7 @@ func runOIDC(r *core.Report, thorough bool) error {
 				tok = e.token(e.issuers[c.Server], t)
 				toks[c.Server] = tok
 			}
-			if err := e.evalOIDC(r, &oidcCase{Cfg: c, Tok: t, Order: 1<<40 + int64(i)*int64(len(cfgs)) + int64(ci)}, tok); err != nil {
+			if err := e.evalOIDC(r, &oidcCase{Cfg: c, Tok: t, Order: 1<<40 + int64(i)*int64(len(cfgs)) + int64(ci)}, tok, auths[ci]); err != nil {
 				setErr(err)
 			}
 		}
@@ -731,7 +734,7 @@ func runOIDC(r *core.Report, thorough bool) error {
 	}
 	r.Set("oidc_side_cases", len(side))
 	r.Parallel(len(side), func(i int) {
-		if err := e.evalOIDC(r, side[i], ""); err != nil {
+		if err := e.evalOIDC(r, side[i], "", nil); err != nil {
 			setErr(err)
 		}
 	})
@@ -758,5 +761,5 @@ func replayOIDC(r *core.Report, kind string, c *oidcCase) error {
 		return err
 	}
 	defer e.close()
-	return e.evalOIDC(r, c, "")
+	return e.evalOIDC(r, c, "", nil)
 }
